@@ -353,3 +353,48 @@ def analysis_leaves_input(n: int, cell: bool, centred: bool, which: int) -> bool
     else:
         md.compute_neighbors(t, 0.5, [0])
     return unchanged(t, snap) and inv(t)
+
+
+# ------------------------------------------------------------------ unit-cell bookkeeping (used by C17)
+
+def stack_cell_presence(n: int, c1: bool, c2: bool) -> bool:
+    """
+    pre: 1 <= n <= 3
+    post: __return__
+    """
+    n = conc(n, 1, 3)
+    t1, t2 = mk(n, c1, False), mk(n, c2, False, seed=4)
+    r = t1.stack(t2)
+    if (r.unitcell_lengths is None) != (r.unitcell_angles is None):
+        return False           # never half a cell
+    if c1:                      # the stacked trajectory carries exactly the left operand's cell (documented)
+        return same(r.unitcell_lengths, t1.unitcell_lengths) and same(r.unitcell_angles, t1.unitcell_angles) and r._have_unitcell
+    return r.unitcell_lengths is None and not r._have_unitcell
+
+
+def cell_presence_ops(n: int, cell: bool, op: int, a: int, k0: bool, k1: bool) -> bool:
+    """
+    pre: 1 <= n <= 3 and 0 <= op <= 4 and -3 <= a <= 3
+    post: __return__
+    """
+    n, op, a = conc(n, 1, 3), conc(op, 0, 4), conc(a, -3, 3)
+    t = mk(n, cell, False)
+    if op == 0:
+        r = t[a:]
+    elif op == 1:
+        r = t[::-1]
+    elif op == 2:
+        r = t.join(mk(2, cell, False, seed=3))
+    elif op == 3:
+        r = t.atom_slice([i for i, k in enumerate((True, k0, k1)) if k])
+    else:
+        r = t.stack(mk(n, cell, False, seed=2))
+    have = r.unitcell_lengths is not None
+    if (r.unitcell_angles is not None) != have or r._have_unitcell != have or have != cell:
+        return False
+    if have and (r.unitcell_lengths.shape != (r.n_frames, 3) or r.unitcell_angles.shape != (r.n_frames, 3)):
+        return False
+    if have and r.n_frames:
+        v = r.unitcell_volumes
+        return v.shape == (r.n_frames,) and bool(np.all(v > 0)) and r.unitcell_vectors.shape == (r.n_frames, 3, 3)
+    return r.unitcell_volumes is None if not have else True
